@@ -278,7 +278,7 @@ UNIT = {
      {'name': 'lexer_is_whitespace_leaf', 'fn': 'Lexer::is_whitespace', 'file': F, 'props': ['C03', 'C01'], 'kind': 'complete', 'covers': True,
       'contract': 'forall byte values, buffers of 0..2 bytes, every pos: usize. is_whitespace(pos) == (pos < len && is_ws(buf[pos])); never panics  [= hoist_get_is_ws]'},
      {'name': 'lexer_is_delimiter_leaf', 'fn': 'Lexer::is_delimiter', 'file': F, 'props': ['C03', 'C01'], 'kind': 'complete', 'covers': True,
-      'contract': 'forall byte values, buffers of 0..2 bytes, every pos: usize. is_delimiter(pos) == (pos < len && buf[pos] in "()<>[]{}/%"); never panics  [= hoist_get_is_delim]'},
+      'contract': 'forall byte values, buffers of 0..2 bytes, every pos: usize. is_delimiter(pos) == (pos < len && buf[pos] in "()<>[]{}/%"); never panics  [= hoist_get_in_set with the set of the source literal]'},
      {'name': 'boundary_ws_leaf', 'fn': 'boundary', 'file': F, 'props': ['C03', 'C01'], 'kind': 'bounded', 'bound': 'slices <= 8 bytes, unwind 10', 'covers': True,
       'contract': 'pos <= len ==> pos <= r <= len, is_ws on [pos,r), r < len ==> !is_ws(data[r])  [= hoist_boundary_ws]'},
      {'name': 'boundary_rev_ws_leaf', 'fn': 'boundary_rev', 'file': F, 'props': ['C01'], 'kind': 'bounded', 'bound': 'slices <= 8 bytes, unwind 10', 'covers': True,
